@@ -238,7 +238,7 @@ def eq_ty(x, y, label):
 
 
 core.register("C04", [
-    Facet("functor", functor_cases, check_functor, n_quick=1500,
+    Facet("functor", functor_cases, check_functor, n_quick=3000,
           shards_quick=8, rule=RULE),
 ], rule=RULE, assumptions=[
     "the image of a block swap is compared with the library's "
